@@ -5,6 +5,7 @@ pub mod dut;
 pub mod exec;
 pub mod expect;
 pub mod gen;
+pub mod mutate;
 pub mod props;
 pub mod refcodec;
 pub mod refmac;
@@ -53,6 +54,7 @@ macro_rules! dispatch {
             "C10" => $f(&props::c10::C10, $($arg),*),
             "C11" => $f(&props::c11::C11, $($arg),*),
             "C12" => $f(&props::c12::C12, $($arg),*),
+            "C20" => $f(&props::c20::C20, $($arg),*),
             other => {
                 println!("HARNESS-ERROR unknown property {other}");
                 EXIT_HARNESS
